@@ -20,6 +20,11 @@
 (*                               server sent a close frame (F04d)           *)
 (*  "connected_before_response"  state CONNECTED set before the handshake   *)
 (*                               response went out (F12c)                   *)
+(*  "closed_after_refusal"       a client that writes frames before the     *)
+(*                               application accepted is refused with 400;  *)
+(*                               the stream was marked closed only after    *)
+(*                               the 400 had been written, and an accept    *)
+(*                               arriving in between raised (F04f)          *)
 (***************************************************************************)
 EXTENDS Naturals, Integers, Sequences, FiniteSets, TLC
 
@@ -48,10 +53,11 @@ VARIABLES
     acceptFails, \* the carrier refuses the handshake response (e.g. h11 rejects a header)
     lost,        \* connection lost
     strayFrames, \* websocket frames written although no 101 went out
+    refused,     \* the 400 that answers frames written before the application accepted is on the wire
     crashed      \* an exception escaped _handle_events
 
 vars == <<asgi, accepted, ws, buf, cmsg, nsent, sizes, q, delivered, sclosed, clientCode, sentClose, appClosed,
-          resp101, acceptFails, lost, strayFrames, crashed>>
+          resp101, acceptFails, lost, strayFrames, refused, crashed>>
 
 Init ==
     /\ asgi = "HANDSHAKE" /\ accepted = FALSE /\ ws = "NONE"
@@ -61,27 +67,33 @@ Init ==
     /\ q = <<<<"connect", 0>>>>
     /\ delivered = <<>>
     /\ sclosed = FALSE /\ clientCode = 0 /\ sentClose = 0 /\ appClosed = 0
-    /\ resp101 = FALSE /\ acceptFails \in BOOLEAN /\ lost = FALSE /\ strayFrames = 0 /\ crashed = FALSE
+    /\ resp101 = FALSE /\ acceptFails \in BOOLEAN /\ lost = FALSE /\ strayFrames = 0 /\ refused = FALSE
+    /\ crashed = FALSE
 
 Alive == ~sclosed /\ ~lost /\ ~crashed
 
 (* ---- application ------------------------------------------------------------------------ *)
 AppAccept ==
     /\ Alive /\ asgi = "HANDSHAKE"
-    /\ accepted' = TRUE /\ ws' = "OPEN"
-    /\ IF acceptFails
-       THEN \* the send of the handshake response raises into the application
-            /\ asgi' = IF "connected_before_response" \in Dev THEN "CONNECTED" ELSE "HANDSHAKE"
-            /\ UNCHANGED resp101
-       ELSE asgi' = "CONNECTED" /\ resp101' = TRUE
+    /\ accepted' = TRUE
+    /\ IF refused
+       THEN \* (deviation only: otherwise the stream is closed by now) a 101 behind the 400: the carrier raises,
+            \* into the application and out of the connection handler
+            /\ crashed' = TRUE /\ UNCHANGED <<ws, asgi, resp101>>
+       ELSE /\ ws' = "OPEN" /\ UNCHANGED crashed
+            /\ IF acceptFails
+               THEN \* the send of the handshake response raises into the application
+                    /\ asgi' = IF "connected_before_response" \in Dev THEN "CONNECTED" ELSE "HANDSHAKE"
+                    /\ UNCHANGED resp101
+               ELSE asgi' = "CONNECTED" /\ resp101' = TRUE
     /\ UNCHANGED <<buf, cmsg, nsent, sizes, q, delivered, sclosed, clientCode, sentClose, appClosed, acceptFails, lost,
-                   strayFrames, crashed>>
+                   strayFrames, refused>>
 
 AppSendMsg ==
     /\ Alive /\ asgi = "CONNECTED"
     /\ strayFrames' = IF resp101 THEN strayFrames ELSE strayFrames + 1
     /\ UNCHANGED <<asgi, accepted, ws, buf, cmsg, nsent, sizes, q, delivered, sclosed, clientCode, sentClose, appClosed,
-                   resp101, acceptFails, lost, crashed>>
+                   resp101, acceptFails, lost, refused, crashed>>
 
 AppClose(code) ==
     /\ Alive /\ asgi = "CONNECTED" /\ appClosed = 0
@@ -90,14 +102,14 @@ AppClose(code) ==
        ELSE IF ws = "REMOTE_CLOSING" THEN ws' = "CLOSED" /\ UNCHANGED sentClose
        ELSE UNCHANGED <<ws, sentClose>>
     /\ UNCHANGED <<accepted, buf, cmsg, nsent, sizes, q, delivered, sclosed, clientCode, resp101, acceptFails, lost,
-                   strayFrames, crashed>>
+                   strayFrames, refused, crashed>>
 
 AppRecv ==
     /\ q # <<>>
     /\ q' = Tail(q)
     /\ delivered' = IF Head(q)[1] = "receive" THEN Append(delivered, Head(q)[2]) ELSE delivered
     /\ UNCHANGED <<asgi, accepted, ws, buf, cmsg, nsent, sizes, sclosed, clientCode, sentClose, appClosed, resp101,
-                   acceptFails, lost, strayFrames, crashed>>
+                   acceptFails, lost, strayFrames, refused, crashed>>
 
 (* ---- client ------------------------------------------------------------------------------ *)
 (* one fragment of a message: the first fragment chooses kind and total size *)
@@ -132,7 +144,8 @@ ClientFragment ==
     /\ IF cmsg'.sent = cmsg'.size
        THEN /\ nsent' = nsent + 1 /\ sizes' = Append(sizes, cmsg'.size)
        ELSE UNCHANGED <<nsent, sizes>>
-    /\ UNCHANGED <<asgi, accepted, delivered, sclosed, clientCode, appClosed, resp101, acceptFails, lost, strayFrames>>
+    /\ UNCHANGED <<asgi, accepted, delivered, sclosed, clientCode, appClosed, resp101, acceptFails, lost, strayFrames,
+                   refused>>
 
 MsgDone == cmsg.n = 0 \/ cmsg.sent = cmsg.size
 ResetMsg == cmsg' = IF MsgDone THEN [n |-> 0, kind |-> "", size |-> 0, sent |-> 0] ELSE cmsg
@@ -149,7 +162,8 @@ ClientClose(code) ==
                             ELSE IF asgi \in {"CLOSED", "HTTPCLOSED"} THEN 1000 ELSE 1006
                IN q' = Append(q, <<"disconnect", dcode>>)
     /\ ResetMsg
-    /\ UNCHANGED <<asgi, accepted, buf, nsent, sizes, delivered, appClosed, resp101, acceptFails, lost, strayFrames, crashed>>
+    /\ UNCHANGED <<asgi, accepted, buf, nsent, sizes, delivered, appClosed, resp101, acceptFails, lost, strayFrames,
+                   refused, crashed>>
 
 ConnLost ==
     /\ ~lost
@@ -158,10 +172,29 @@ ConnLost ==
        ELSE /\ sclosed' = TRUE
             /\ q' = Append(q, <<"disconnect", IF asgi \in {"CLOSED", "HTTPCLOSED"} THEN 1000 ELSE 1006>>)
     /\ UNCHANGED <<asgi, accepted, ws, buf, cmsg, nsent, sizes, delivered, clientCode, sentClose, appClosed, resp101,
-                   acceptFails, strayFrames, crashed>>
+                   acceptFails, strayFrames, refused, crashed>>
+
+(* frames the client writes before the application accepted (a client must wait for the 101): handle(Data) with   *)
+(* Handshake.accepted false marks the stream closed, answers 400 and tells the application (disconnect 1006).    *)
+(* Writing the 400 is a suspension point: the stream has to be marked closed before it, or the application's     *)
+(* accept runs in between (F04f); and without the disconnect the application - started with the request - waits  *)
+(* for ever and keeps the connection's task group alive (F03e).                                                   *)
+EarlyData ==
+    /\ \/ /\ ~lost /\ ~crashed /\ ~sclosed /\ ~accepted /\ ~refused /\ asgi = "HANDSHAKE"
+          /\ refused' = TRUE
+          /\ IF "closed_after_refusal" \notin Dev
+             THEN \* closed first, then the 400, then the application is told (it was started with the request)
+                  sclosed' = TRUE /\ q' = Append(q, <<"disconnect", 1006>>)
+             ELSE UNCHANGED <<sclosed, q>>
+       \/ \* (deviation only) ... marked closed when the 400 has been written, the application never told
+          /\ "closed_after_refusal" \in Dev /\ refused /\ ~sclosed /\ ~crashed
+          /\ sclosed' = TRUE /\ UNCHANGED <<refused, q>>
+    /\ UNCHANGED <<asgi, accepted, ws, buf, cmsg, nsent, sizes, delivered, clientCode, sentClose, appClosed, resp101,
+                   acceptFails, lost, strayFrames, crashed>>
 
 Next == AppAccept \/ AppSendMsg \/ (\E c \in {1000, 4000} : AppClose(c)) \/ AppRecv
         \/ ClientFragment \/ (\E c \in {1001, 1005} : ClientClose(c)) \/ ConnLost
+        \/ EarlyData
 Spec == Init /\ [][Next]_vars
 
 (* ===================== properties ===================== *)
@@ -189,4 +222,6 @@ DisconnectCode ==
 OneDisconnect == Cardinality({i \in 1..Len(q) : q[i][1] = "disconnect"}) <= 1
 (* C12: no websocket frame on a connection that never got its handshake response *)
 NoStrayFrames == strayFrames = 0
+(* C13/C11: a handshake is answered once - refused or accepted *)
+OneAnswer == ~(refused /\ resp101)
 =============================================================================
